@@ -2,97 +2,311 @@ import LinfaSpec.Model.Proto
 import LinfaSpec.Model.Scalar
 import LinfaSpec.Model.LeastSquares
 
-namespace LinfaSpec.Drv.C11
-open LinfaSpec.Proto LinfaSpec.LeastSquares
+/-!
+Driver of C11.  Every handler is written once over a `Codec` (how scalars travel on the line) and
+run on `Float` (`ty` absent or `f64`, 16 hex digits) or `Float32` (`ty=f32`, 8 hex digits): the very
+same model functions, only the instance differs.
 
-/-- `f64::EPSILON`, the default tolerance of `abs_diff_eq!` -/
-def eps64 : Float := Float.ofBits 0x3CB0000000000000
+Layout of the record matrix (`lay=`): `c` standard (a column view is contiguous iff `p = 1`),
+`f` Fortran order / transposed view (every column is contiguous), `s` a view that skips rows (no
+column is contiguous).  Tolerance-compared tokens (`~`) are always written as f64.
+-/
+namespace LinfaSpec.Drv.C11
+open LinfaSpec LinfaSpec.Proto LinfaSpec.LeastSquares
+
+local instance : Transc Float32 := ⟨Float32.sqrt, Float32.exp, Float32.log⟩
+
+structure Codec (α : Type) where
+  parse : String → Option α
+  /-- exact token; NaN canonical -/
+  shw : α → String
+  wide : α → Float
+  ofNat : Nat → α
+  /-- `F::EPSILON`, the default tolerance of `abs_diff_eq!` -/
+  eps : α
+  /-- `F::cast(1e-4)`, the default tolerance -/
+  tol0 : α
+  /-- is the multi-task gap value compared?  (not in f32: the gap is a difference of large terms, its
+  relative error in single precision is unbounded; `W`, `b`, the sweep count and `predict` are compared) -/
+  cmpGap : Bool
+  /-- with `l1 = 0`: relative size of `‖XᵀR − l2·W‖` under which a returned point counts as stationary -/
+  tieThr : Float
+
+def c64 : Codec Float :=
+  { parse := parseF64, shw := showF64c, wide := id, ofNat := Float.ofNat,
+    eps := Float.ofBits 0x3CB0000000000000, tol0 := 1e-4, cmpGap := true, tieThr := 1e-9 }
+
+def c32 : Codec Float32 :=
+  { parse := parseF32, shw := fun x => if x != x then "nan" else showF32 x, wide := Float32.toFloat,
+    ofNat := Float32.ofNat, eps := Float32.ofBits 0x34000000, tol0 := (1e-4 : Float).toFloat32,
+    cmpGap := false, tieThr := 1e-4 }
+
+section
+variable {α : Type} [Add α] [Sub α] [Mul α] [Div α] [Neg α] [LT α] [DecidableLT α]
+  [LE α] [DecidableLE α] [OfNat α 0] [OfNat α 1] [Transc α] [BEq α]
 
 /-- `-0.0` and `+0.0` are written alike (the sign of a zero is not modelled) -/
-def canon (x : Float) : Float := x + 0.0
-def sh (x : Float) : String := showF64c (canon x)
-def shT (x : Float) : String := "~" ++ showF64c (canon x)
+def sh (cd : Codec α) (x : α) : String := cd.shw (x + 0)
+def shT (cd : Codec α) (x : α) : String := "~" ++ showF64c (cd.wide x + 0.0)
 
-def colsOfRows (p : Nat) (rows : List (List Float)) : List (List Float) :=
+def argS (cd : Codec α) (toks : List String) (key : String) : Option α := (arg toks key).bind cd.parse
+def argSs (cd : Codec α) (toks : List String) (key : String) : Option (List α) :=
+  (arg toks key).bind (parseList cd.parse)
+def argSs2 (cd : Codec α) (toks : List String) (key : String) : Option (List (List α)) :=
+  (arg toks key).bind (parseList2 cd.parse)
+
+def colsOfRows (p : Nat) (rows : List (List α)) : List (List α) :=
   (List.range p).map fun j => rows.map fun row => row.getD j 0
 
-/-- rows must be rectangular and non-empty, `p ≥ 1` -/
-def parseX (toks : List String) : Option (Nat × Nat × List (List Float)) := do
-  let rows ← argF64s2 toks "X"
+/-- rows must be rectangular and non-empty, `p ≥ 1`; result `(n, p, columns, contig, rowContig)` -/
+def parseX (cd : Codec α) (toks : List String) : Option (Nat × Nat × List (List α) × Bool × Bool) := do
+  let rows ← argSs2 cd toks "X"
   let n := rows.length
   let p := (rows.headD []).length
+  let lay := (arg toks "lay").getD "c"
+  let contig ← match lay with
+    | "c" => some (p == 1)
+    | "f" => some true
+    | "s" => some false
+    | _ => none
   if n = 0 ∨ p = 0 ∨ rows.any (fun r => r.length != p) then none
-  else some (n, p, colsOfRows p rows)
+  else some (n, p, colsOfRows p rows, contig, lay == "c")
 
-def handleGap (toks : List String) : Option String := do
-  let (n, p, C) ← parseX toks
-  let y ← argF64s toks "y"; let w ← argF64s toks "w"; let r ← argF64s toks "r"
-  let l1r ← argF64 toks "l1r"; let pen ← argF64 toks "pen"
+def handleGap (cd : Codec α) (toks : List String) : Option String := do
+  let (n, p, C, contig, _) ← parseX cd toks
+  let y ← argSs cd toks "y"; let w ← argSs cd toks "w"; let r ← argSs cd toks "r"
+  let l1r ← argS cd toks "l1r"; let pen ← argS cd toks "pen"
   if y.length != n ∨ r.length != n ∨ w.length != p then none else
-  some ("ok " ++ sh (dualityGap (p == 1) C y w r l1r pen (Float.ofNat n)))
+  some ("ok " ++ sh cd (dualityGap contig C y w r l1r pen (cd.ofNat n)))
 
-def handleCd (toks : List String) : Option String := do
-  let (n, p, C) ← parseX toks
-  let y ← argF64s toks "y"
-  let tol ← argF64 toks "tol"; let mx ← argNat toks "max"
-  let l1r ← argF64 toks "l1r"; let pen ← argF64 toks "pen"
+def handleCd (cd : Codec α) (toks : List String) : Option String := do
+  let (n, _, C, contig, _) ← parseX cd toks
+  let y ← argSs cd toks "y"
+  let tol ← argS cd toks "tol"; let mx ← argNat toks "max"
+  let l1r ← argS cd toks "l1r"; let pen ← argS cd toks "pen"
   if y.length != n then none else
-  let (w, g, s) := coordinateDescent (p == 1) eps64 C y (Float.ofNat n) tol mx l1r pen
-  some s!"ok w={showList sh w} gap={sh g} steps={s}"
+  let (w, g, s) := coordinateDescent contig cd.eps C y (cd.ofNat n) tol mx l1r pen
+  some s!"ok w={showList (sh cd) w} gap={sh cd g} steps={s}"
 
-def handleFit (toks : List String) : Option String := do
-  let (n, p, C) ← parseX toks
-  let y ← argF64s toks "y"
-  let tol ← argF64 toks "tol"; let mx ← argNat toks "max"
-  let l1r ← argF64 toks "l1r"; let pen ← argF64 toks "pen"
+def handleFit (cd : Codec α) (toks : List String) : Option String := do
+  let (n, _, C, contig, _) ← parseX cd toks
+  let y ← argSs cd toks "y"
+  let tol ← argS cd toks "tol"; let mx ← argNat toks "max"
+  let l1r ← argS cd toks "l1r"; let pen ← argS cd toks "pen"
   let ic ← argNat toks "icpt"
   if y.length != n ∨ ic > 1 then none else
-  let (b, w, g, s) := fitEnet (p == 1) eps64 C y (Float.ofNat n) tol mx l1r pen (ic == 1)
-  some s!"ok b={sh b} w={showList sh w} gap={sh g} steps={s}"
+  let (b, w, g, s) := fitEnet contig cd.eps C y (cd.ofNat n) tol mx l1r pen (ic == 1)
+  some s!"ok b={sh cd b} w={showList (sh cd) w} gap={sh cd g} steps={s}"
 
-def handleObj (toks : List String) : Option String := do
-  let (n, p, C) ← parseX toks
-  let y ← argF64s toks "y"; let w ← argF64s toks "w"; let b ← argF64 toks "b"
-  let l1r ← argF64 toks "l1r"; let pen ← argF64 toks "pen"
+/-- an optional `key=value`: absent → `dflt`, present but ill-formed → the whole request is bad -/
+def optArg {β : Type} (toks : List String) (key : String) (f : String → Option β) (dflt : β) : Option β :=
+  match arg toks key with
+  | none => some dflt
+  | some v => f v
+
+/-- the constructor (`ctor=params|ridge|lasso`) followed by the setters that are present in the line -/
+def parseParams (cd : Codec α) (toks : List String) : Option (EnetParams α) := do
+  let p0 ← match (arg toks "ctor").getD "params" with
+    | "params" => some (EnetParams.new cd.tol0)
+    | "ridge" => some (EnetParams.ridge cd.tol0)
+    | "lasso" => some (EnetParams.lasso cd.tol0)
+    | _ => none
+  let pen ← optArg toks "pen" cd.parse p0.penalty
+  let l1r ← optArg toks "l1r" cd.parse p0.l1Ratio
+  let tol ← optArg toks "tol" cd.parse p0.tolerance
+  let mx ← optArg toks "max" parseNat p0.maxIterations
+  let ic ← optArg toks "icpt" (fun s => if s == "1" then some true else if s == "0" then some false else none)
+    p0.withIntercept
+  some { penalty := pen, l1Ratio := l1r, withIntercept := ic, maxIterations := mx, tolerance := tol }
+
+/-- `fitc`: constructor + optional setters + `fit` (+ `predict` on `P=` when present) -/
+def handleFitC (cd : Codec α) (toks : List String) : Option String := do
+  let (n, p, C, contig, _) ← parseX cd toks
+  let y ← argSs cd toks "y"
+  let prm ← parseParams cd toks
+  let P ← optArg toks "P" (fun s => (parseList2 cd.parse s).map some) none
+  if y.length != n then none else
+  match P with
+  | some rows => if rows.any (fun r => r.length != p) then none else pure ()
+  | none => pure ()
+  match fitParams contig cd.eps C y (cd.ofNat n) prm with
+  | .error _ => some "err"
+  | .ok (b, w, g, s) =>
+    let pr := match P with
+      | some rows => s!" pred={showList (sh cd) (predict true rows w b)}"
+      | none => ""
+    some s!"ok b={sh cd b} w={showList (sh cd) w} gap={sh cd g} steps={s}{pr}"
+
+def handleObj (cd : Codec α) (toks : List String) : Option String := do
+  let (n, p, C, _, _) ← parseX cd toks
+  let y ← argSs cd toks "y"; let w ← argSs cd toks "w"; let b ← argS cd toks "b"
+  let l1r ← argS cd toks "l1r"; let pen ← argS cd toks "pen"
   if y.length != n ∨ w.length != p then none else
-  some s!"ok obj={sh (objective C y w b l1r pen (Float.ofNat n))} sse={sh (sse C y w b)}"
+  some s!"ok obj={sh cd (objective C y w b l1r pen (cd.ofNat n))} sse={sh cd (sse C y w b)}"
 
-def handleBst (toks : List String) : Option String := do
-  let x ← argF64s toks "x"; let thr ← argF64 toks "thr"
-  some ("ok " ++ showList sh (blockSoft x thr))
+def handleBst (cd : Codec α) (toks : List String) : Option String := do
+  let x ← argSs cd toks "x"; let thr ← argS cd toks "thr"
+  some ("ok " ++ showList (sh cd) (blockSoft x thr))
 
-def rect (rows : List (List Float)) (n t : Nat) : Bool :=
+def rect (rows : List (List α)) (n t : Nat) : Bool :=
   rows.length == n && rows.all (fun r => r.length == t)
 
-def handleGapM (toks : List String) : Option String := do
-  let (n, p, C) ← parseX toks
+def handleGapM (cd : Codec α) (toks : List String) : Option String := do
+  let (n, p, C, _, _) ← parseX cd toks
   let t ← argNat toks "t"
-  let Y ← argF64s2 toks "Y"; let W ← argF64s2 toks "W"; let R ← argF64s2 toks "R"
-  let l1r ← argF64 toks "l1r"; let pen ← argF64 toks "pen"
+  let Y ← argSs2 cd toks "Y"; let W ← argSs2 cd toks "W"; let R ← argSs2 cd toks "R"
+  let l1r ← argS cd toks "l1r"; let pen ← argS cd toks "pen"
   if t = 0 ∨ !rect Y n t ∨ !rect R n t ∨ !rect W p t then none else
-  some ("ok " ++ shT (dualityGapMtl t C Y W R l1r pen (Float.ofNat n)))
+  some ("ok " ++ shT cd (dualityGapMtl t C Y W R l1r pen (cd.ofNat n)))
 
-def handleBcd (toks : List String) : Option String := do
-  let (n, p, C) ← parseX toks
+def handleBcd (cd : Codec α) (toks : List String) : Option String := do
+  let (n, _, C, contig, _) ← parseX cd toks
   let t ← argNat toks "t"
-  let Y ← argF64s2 toks "Y"
-  let tol ← argF64 toks "tol"; let mx ← argNat toks "max"
-  let l1r ← argF64 toks "l1r"; let pen ← argF64 toks "pen"
+  let Y ← argSs2 cd toks "Y"
+  let tol ← argS cd toks "tol"; let mx ← argNat toks "max"
+  let l1r ← argS cd toks "l1r"; let pen ← argS cd toks "pen"
   if t = 0 ∨ !rect Y n t then none else
-  let (w, g, s) := blockCoordinateDescent (p == 1) t eps64 C Y (Float.ofNat n) tol mx l1r pen
+  let (w, g, s) := blockCoordinateDescent contig t cd.eps C Y (cd.ofNat n) tol mx l1r pen
   -- l1 = 0: the gap is a float tie after a tolerance-compared descent (see harness), not printed
-  let gs := if l1r * pen == 0.0 then "-" else shT g
-  some s!"ok w={showList2 shT w} gap={gs} steps={s}"
+  let gs := if l1r * pen == 0 then "-" else shT cd g
+  some s!"ok w={showList2 (shT cd) w} gap={gs} steps={s}"
+
+/-! ### the sweep count of a tolerance-compared descent hangs on float comparisons
+
+`bcdSafe` replays the model's `bcdLoop` (same sweep, same tests) and says whether every test that
+decides the control flow — `w_max ≈ 0`, `d_w_max / w_max < tol`, `gap < tol·‖Y‖²` — was taken with a
+relative margin of at least `1e-6`.  (With `l1 = 0` the gap itself jumps at `XᵀR − l2·W = 0` exactly; a
+converged ridge fit sits at rounding distance from that point, so no margin can be asked there: those
+lines rely on gemm producing the same bits on lattice-sized problems, as the exact ops do for `dot`.)
+Only then are `steps` and the values compared (`margin=~1`); otherwise the line says `margin=~0` and
+the comparison skips it (counted as `tie_skipped`). -/
+
+def relDist (a b : Float) : Float := Float.abs (a - b) / (Float.abs a + Float.abs b + 1e-300)
+
+def bcdSafe (cd : Codec α) (contig : Bool) (t : Nat) (thr denAdd : α) (C : List (List α)) (norms : List α)
+    (Y : List (List α)) (n tol tolS l1r pen : α) (maxSteps : Nat) :
+    Nat → Nat → List (List α) → List (List α) → Bool
+  | 0, _, _, _ => true
+  | fuel + 1, steps, w, r =>
+    let st := bcdSweepGo contig t cd.eps thr denAdd 0 C norms { w := w, r := r, wMax := 0, dwMax := 0 }
+    let steps' := steps + 1
+    let forced := steps' == maxSteps - 1
+    let a := decide (absS st.wMax ≤ cd.eps)
+    let b := decide (st.dwMax / st.wMax < tol)
+    let safeA := relDist (cd.wide (absS st.wMax)) (cd.wide cd.eps) > 1e-6
+    let safeB := a || relDist (cd.wide (st.dwMax / st.wMax)) (cd.wide tol) > 1e-6
+    let safeAB := forced || (safeA && safeB)
+    if forced || a || b then
+      let g := dualityGapMtl t C Y st.w st.r l1r pen n
+      let safeC := relDist (cd.wide g) (cd.wide tolS) > 1e-6
+      if g < tolS then safeAB && safeC
+      else safeAB && safeC &&
+        bcdSafe cd contig t thr denAdd C norms Y n tol tolS l1r pen maxSteps fuel steps' st.w st.r
+    else safeAB && bcdSafe cd contig t thr denAdd C norms Y n tol tolS l1r pen maxSteps fuel steps' st.w st.r
+
+def bcdSafeTop (cd : Codec α) (contig : Bool) (t : Nat) (C : List (List α)) (Y : List (List α))
+    (n tol : α) (maxSteps : Nat) (l1r pen : α) : Bool :=
+  let norms := C.map fun c => dotC contig c c
+  bcdSafe cd contig t (n * l1r * pen) (n * (1 - l1r) * pen) C norms Y n tol
+    (tol * sumS (Y.flatten.map fun x => x * x)) l1r pen maxSteps maxSteps 0
+    (List.replicate C.length (List.replicate t 0)) Y
+
+/-- With `l1 = 0` the gap formula jumps at `XᵀR − l2·W = 0` exactly (scaling constant 1 instead of 0): a
+ridge / unpenalised descent that has converged sits at rounding distance from that point, and whether it
+hits it exactly (and then breaks) hangs on the last bits of gemm.  `tieLevel` is `‖XᵀR − l2·W‖ / (‖Y‖·max‖x_j‖)` (`Y` the centred target)
+recomputed at the returned point; at or under `tieThr` (harness: same criterion from first principles) the
+gap and the sweep count are not compared (`-`), `W`, `b`, `predict` still are; within a factor 100 of
+the threshold the line is skipped. -/
+def tieLevel (cd : Codec α) (t : Nat) (C Yc W : List (List α)) (l1r pen n : α) : Float :=
+  let l2 := (1 - l1r) * pen * n
+  let Rc := List.zipWith (fun yk wk => residual C yk wk 0) (colsOf t Yc) (colsOf t W)
+  let R := colsOf Yc.length Rc
+  let dn := cd.wide (dualNormMtl t C W R l2)
+  let yn := cd.wide (sumS (Yc.flatten.map fun x => x * x))
+  let xn := cd.wide (normMax (C.map fun c => dotS c c))
+  dn / (Float.sqrt yn * Float.sqrt xn + 1e-300)
+
+/-- `(gap token, steps token, safe)` -/
+def gapSteps (cd : Codec α) (t : Nat) (C Yc W : List (List α)) (l1r pen n g : α) (s : Nat) (safe : Bool) :
+    String × String × Bool :=
+  if l1r * pen * n == 0 then
+    let lv := tieLevel cd t C Yc W l1r pen n
+    if lv ≤ cd.tieThr / 100 then ("-", "-", true)
+    else if lv < cd.tieThr * 100 then ("-", "-", false)
+    else (if cd.cmpGap then shT cd g else "-", toString s, safe)
+  else (if cd.cmpGap then shT cd g else "-", toString s, safe)
+
+def marginTok (safe : Bool) : String := if safe then "margin=~3ff0000000000000" else "margin=~0000000000000000"
+
+/-- `bcdt`: `block_coordinate_descent` with its real stopping rule -/
+def handleBcdT (cd : Codec α) (toks : List String) : Option String := do
+  let (n, _, C, contig, _) ← parseX cd toks
+  let t ← argNat toks "t"
+  let Y ← argSs2 cd toks "Y"
+  let tol ← argS cd toks "tol"; let mx ← argNat toks "max"
+  let l1r ← argS cd toks "l1r"; let pen ← argS cd toks "pen"
+  if t = 0 ∨ !rect Y n t then none else
+  let (w, g, s) := blockCoordinateDescent contig t cd.eps C Y (cd.ofNat n) tol mx l1r pen
+  let safe := bcdSafeTop cd contig t C Y (cd.ofNat n) tol mx l1r pen
+  let (gs, ss, safe) := gapSteps cd t C Y w l1r pen (cd.ofNat n) g s safe
+  some s!"ok w={showList2 (shT cd) w} gap={gs} steps={ss} {marginTok safe}"
+
+/-- `fitm`: `MultiTaskElasticNet::{params,ridge,lasso}()` + optional setters + `fit` (+ `predict`) -/
+def handleFitM (cd : Codec α) (toks : List String) : Option String := do
+  let (n, p, C, contig, _) ← parseX cd toks
+  let t ← argNat toks "t"
+  let Y ← argSs2 cd toks "Y"
+  let prm ← parseParams cd toks
+  let P ← optArg toks "P" (fun s => (parseList2 cd.parse s).map some) none
+  if t = 0 ∨ !rect Y n t then none else
+  match P with
+  | some rows => if rows.any (fun r => r.length != p) then none else pure ()
+  | none => pure ()
+  match fitParamsMtl contig t cd.eps C Y (cd.ofNat n) prm with
+  | .error _ => some "err"
+  | .ok (b, w, g, s) =>
+    let Yc := (computeInterceptMtl prm.withIntercept t Y (cd.ofNat n)).2
+    let safe := bcdSafeTop cd contig t C Yc (cd.ofNat n) prm.tolerance prm.maxIterations prm.l1Ratio prm.penalty
+    let pr := match P with
+      | some rows => s!" pred={showList2 (shT cd) (predictMtl t rows w b)}"
+      | none => ""
+    let (gs, ss, safe) := gapSteps cd t C Yc w prm.l1Ratio prm.penalty (cd.ofNat n) g s safe
+    some s!"ok b={showList (sh cd) b} w={showList2 (shT cd) w} gap={gs} steps={ss}{pr} {marginTok safe}"
+
+/-- `objm`: the documented multi-task objective (times `n`) -/
+def handleObjM (cd : Codec α) (toks : List String) : Option String := do
+  let (n, p, C, _, _) ← parseX cd toks
+  let t ← argNat toks "t"
+  let Y ← argSs2 cd toks "Y"; let W ← argSs2 cd toks "W"; let b ← argSs cd toks "b"
+  let l1r ← argS cd toks "l1r"; let pen ← argS cd toks "pen"
+  if t = 0 ∨ !rect Y n t ∨ !rect W p t ∨ b.length != t then none else
+  some ("ok " ++ shT cd (objectiveMtl C (colsOf t Y) (colsOf t W) W b l1r pen (cd.ofNat n)))
+
+def dispatch (cd : Codec α) (toks : List String) : Option String :=
+  match toks with
+  | "gap" :: rest => handleGap cd rest
+  | "cd" :: rest => handleCd cd rest
+  | "fit" :: rest => handleFit cd rest
+  | "fitc" :: rest => handleFitC cd rest
+  | "obj" :: rest => handleObj cd rest
+  | "bst" :: rest => handleBst cd rest
+  | "gapm" :: rest => handleGapM cd rest
+  | "bcd" :: rest => handleBcd cd rest
+  | "bcdt" :: rest => handleBcdT cd rest
+  | "fitm" :: rest => handleFitM cd rest
+  | "objm" :: rest => handleObjM cd rest
+  -- the f32 forms of the tolerance-compared ops have their own comparison rule, hence their own name
+  | "gapm32" :: rest => handleGapM cd rest
+  | "bcdt32" :: rest => handleBcdT cd rest
+  | "fitm32" :: rest => handleFitM cd rest
+  | _ => none
+
+end
 
 def handle (toks : List String) : String :=
-  let r := match toks with
-    | "gap" :: rest => handleGap rest
-    | "cd" :: rest => handleCd rest
-    | "fit" :: rest => handleFit rest
-    | "obj" :: rest => handleObj rest
-    | "bst" :: rest => handleBst rest
-    | "gapm" :: rest => handleGapM rest
-    | "bcd" :: rest => handleBcd rest
+  let r := match (arg toks "ty").getD "f64" with
+    | "f64" => dispatch c64 toks
+    | "f32" => dispatch c32 toks
     | _ => none
   r.getD "bad-op"
 
